@@ -43,6 +43,8 @@ afbe218 C20 VerifC20_SaveLoad
 776c121 C15 VerifC15_PollVsWriteNoDeadlock
 94370e8 C12 VerifC12_CompactPreservesView
 9b089c3 C02 VerifC02_CrashDuringMaintenance
+11ad072 C12 VerifC12_RangeCompaction
+d15e1f5 C12 VerifC12_CompactionInWorkload
 LIST
 echo ALLDONE >> $out
 (cd /repo && git worktree remove --force $wt)
